@@ -21,8 +21,8 @@ notes = {
  "C02/m2": "missed: needs a numeric coincidence of type ids that the generated modules did not produce",
  "C03/m1": "missed: needs matCx2 values in HLSL (gated off for a known finding)",
  "C03/m2": "missed at quick: the round-one C03/m1 shape, thorough tier only",
- "C05/m1": "missed: needs continue inside switch in GLSL (gated, F78)",
- "C06/m1": "missed: needs f32 % in constant expressions (gated, F31)",
+ "C05/m1": "caught after the continue-in-switch gate was narrowed to the F78 shape and the control-nesting profile with nesting scripts was added",
+ "C06/m1": "caught after f32 % was admitted in the constant contexts of C06 (kept out of the run-time form, F31)",
  "C15/m2": "missed: needs ptr<storage> parameters (not generated)",
  "C18/m2": "missed: indistinguishable from F58 (whole-class line)",
 }
